@@ -109,6 +109,10 @@ def check(run, project):
     from .c09 import s3
     c01.framing(RuleView(run, "F", "R10"), roles, L)
     s3(RuleView(run, "S3", "R10"), roles, L)
+    # R11 (= C07-NI-1): strict decoding raises at the point where the inconsistency is detected: every handler of a size error re-raises it in strict mode (the raise-versus-wrap mode tests of C07-NI-1): a test that lets strict mode fall into the warn branch turns the error into a warning and accepts the input
+    from ..report import RuleView as _RVm
+    from . import c07 as _c07
+    _c07.check(_RVm(run, "NI-1", "R11"), project)
     run.floor("R1", 20, "region obligations")
     run.floor("R4", 20, "threaded call sites")
 
